@@ -530,11 +530,10 @@ func (e *kvElection) attemptPriorityTakeover(payloadBytes []byte) error {
 
 	if e.cfg.Priority <= currentPayload.Priority {
 		// Follower bookkeeping only: a leader's revision is the one its next
-		// refresh is checked against and must not be replaced by a read.
-		if !e.IsLeader() {
-			e.leaderID.Store(currentPayload.ID)
-			e.revision.Store(entry.Revision())
-		}
+		// refresh is checked against and must not be replaced by a read. adoptLeader
+		// makes the leadership test and the stores one critical section with
+		// becomeLeader (another acquisition of this instance may win meanwhile).
+		e.adoptLeader(currentPayload.ID, entry.Revision())
 		return fmt.Errorf("current leader has equal or higher priority: %d >= %d", currentPayload.Priority, e.cfg.Priority)
 	}
 
